@@ -1040,3 +1040,44 @@ def generate_des(args):
     except Exception as ex:
         import traceback
         return idx, "", [], {}, f"{type(ex).__name__}: {ex} @ {traceback.format_exc()[-400:]}"
+
+
+
+# ---------------------------------------------------------------------------------------------------------------------
+# case-level jobs (one shape / one invalid-input case per worker task): the shapes of one type are independent proofs
+# ---------------------------------------------------------------------------------------------------------------------
+def cases_of(t, direction: str) -> typing.List[typing.Tuple[dict, typing.Optional[str]]]:
+    shapes = shapes_of(t)
+    cases: typing.List[typing.Tuple[dict, typing.Optional[str]]] = [(sh, None) for sh in shapes]
+    if direction == "des":
+        seen = set()
+        for sh in shapes:  # invalid inputs: the first offending prefix/tag after a valid beginning
+            keys = list(sh)
+            for i, k in enumerate(keys):
+                pre = tuple((q, sh[q]) for q in keys[:i])
+                if (pre, k) in seen:
+                    continue
+                seen.add((pre, k))
+                cases.append((dict(pre), k))
+    return cases
+
+
+def generate_case(args):
+    """worker: (type index, direction, shape, invalid, ...) -> (type index, target, obligations, info, error kind, error)"""
+    from vk import render
+    idx, direction, shape, invalid, ns_dir, full_name, version, text, module_rel, cls_path, src_root = args
+    try:
+        lang = render.language_context("py").get_target_language()
+        all_types = _flatten(pydsdl.read_namespace(ns_dir, []))
+        t = {str(x): x for x in all_types}[f"{full_name}.{version[0]}.{version[1]}"]
+        if direction == "ser":
+            c, obs, info = verify_shape(lang, t, shape, text, module_rel, cls_path, src_root, _nested(t))
+        else:
+            c, obs, info = verify_des_shape(lang, t, shape, invalid, text, module_rel, cls_path, src_root, all_types)
+        return idx, c.target, obs, info, None, None
+    except NotInSubset as ex:
+        return idx, "", [], {}, "outside", f"{shape_label(shape)}{'!' + invalid if invalid else ''}: {ex}"
+    except KeyError as ex:
+        return idx, "", [], {}, "outside", f"{shape_label(shape)}{'!' + invalid if invalid else ''}: shape key {ex}"
+    except Exception as ex:  # OutOfSubset / BindingError: undecided, never a violation
+        return idx, "", [], {}, "undecided", f"{shape_label(shape)}{'!' + invalid if invalid else ''}: {type(ex).__name__}: {ex}"
